@@ -55,6 +55,9 @@ class _Continue(Exception):
     pass
 
 
+ARITH_ON_ORDINALS: set[str] = set()     # ordinals that took part in arithmetic (reported in evidence)
+
+
 class OrdInt:
     """A cardinality-like integer that may only be compared (order-type abstraction)."""
 
@@ -99,6 +102,10 @@ class OrdInt:
 
     def __repr__(self) -> str:
         return f"<{self.tag}={self.v}>"
+
+    def __index__(self) -> int:
+        ARITH_ON_ORDINALS.add(self.tag)
+        return self.v
 
 
 class EnumVal:
@@ -200,6 +207,13 @@ class Lambda:
         self.node, self.env, self.fi = node, env, fi
 
 
+class LocalFunc:
+    """A function defined inside a function: evaluated in the defining scope's environment."""
+
+    def __init__(self, node: ast.FunctionDef, env: dict, fi: Optional[FuncInfo]) -> None:
+        self.node, self.env, self.fi = node, env, fi
+
+
 _CMP: dict[type, Callable[[Any, Any], bool]] = {
     ast.Eq: operator.eq, ast.NotEq: operator.ne, ast.Lt: operator.lt, ast.LtE: operator.le,
     ast.Gt: operator.gt, ast.GtE: operator.ge,
@@ -281,7 +295,76 @@ class Interp:
             if not isinstance(string, str) or not isinstance(repl, str):
                 raise AbsRaise("TypeError: expected string or bytes-like object")
             return _re.sub(pattern, repl, string, count=count, flags=flags)
+        def deepcopy(v: Any, memo: Any = None) -> Any:
+            seen: dict[int, Any] = {}
+
+            def cp(x: Any) -> Any:
+                if isinstance(x, AObj):
+                    if id(x) in seen:
+                        return seen[id(x)]
+                    y = AObj(x._cls)
+                    seen[id(x)] = y
+                    for k, val in x._f.items():
+                        if k != "_frozen":
+                            y._f[k] = cp(val)
+                    return y
+                if isinstance(x, list):
+                    return [cp(i) for i in x]
+                if isinstance(x, tuple):
+                    return tuple(cp(i) for i in x)
+                if isinstance(x, dict):
+                    return {cp(k): cp(i) for k, i in x.items()}
+                if isinstance(x, (set, frozenset)):
+                    return type(x)(cp(i) for i in x)
+                return x
+            return cp(v)
+
+        def shallow(v: Any) -> Any:
+            if isinstance(v, AObj):
+                y = AObj(v._cls)
+                for k, val in v._f.items():
+                    if k != "_frozen":
+                        y._f[k] = val
+                return y
+            if isinstance(v, list):
+                return list(v)
+            if isinstance(v, dict):
+                return dict(v)
+            if isinstance(v, set):
+                return set(v)
+            return v
+
+        class _Logger(Native):
+            def __getattr__(self, name: str) -> Any:
+                return lambda *a, **k: None
+
+        def attrgetter(*names: str) -> Any:
+            def get(o: Any) -> Any:
+                vals = []
+                for nm in names:
+                    cur = o
+                    for part in nm.split("."):
+                        cur = self.getattr(cur, part, ast.Constant(value=None), None)
+                    vals.append(cur)
+                return vals[0] if len(vals) == 1 else tuple(vals)
+            return get
+
+        def itemgetter(*keys: Any) -> Any:
+            return lambda o: o[keys[0]] if len(keys) == 1 else tuple(o[k] for k in keys)
+        import collections as _c
         d = {
+            "copy.deepcopy": deepcopy,
+            "copy.copy": shallow,
+            "operator.attrgetter": attrgetter,
+            "operator.itemgetter": itemgetter,
+            "logging.getLogger": lambda *a, **k: _Logger(),
+            "logging.warn": lambda *a, **k: None,
+            "logging.exception": lambda *a, **k: None,
+            "logging.critical": lambda *a, **k: None,
+            "warnings.warn": lambda *a, **k: None,
+            "collections.OrderedDict": lambda *a, **k: dict(*a, **k),
+            "collections.Counter": lambda xs=(): dict(_c.Counter(list(self.iterate(xs)))),
+            "collections.deque": lambda xs=(): list(self.iterate(xs)),
             "re.sub": re_sub,
             "math.prod": prod,
             "itertools.combinations": lambda xs, k: list(_it.combinations(list(self.iterate(xs)), k)),
@@ -347,6 +430,31 @@ class Interp:
         if init is not None:
             self.call(init, [obj] + list(args or []))
         return obj
+
+    def call_local(self, f: "LocalFunc", args: list[Any], kwargs: dict[str, Any]) -> Any:
+        a = f.node.args
+        names = [x.arg for x in a.posonlyargs + a.args]
+        e2 = dict(f.env)                      # enclosing scope (shared mutable objects stay shared)
+        e2[f.node.name] = f
+        defaults = a.defaults
+        dnames = names[len(names) - len(defaults):] if defaults else []
+        for nm, d in zip(dnames, defaults):
+            e2[nm] = self.eval(d, f.env, f.fi)
+        for nm, v in zip(names, args):
+            e2[nm] = v
+        e2.update(kwargs)
+        self.depth += 1
+        if self.depth > self.max_depth:
+            self.depth -= 1
+            raise AnalysisError("ABSINT", f"inlining bound {self.max_depth} exceeded at local {f.node.name}")
+        try:
+            try:
+                self.exec_block(f.node.body, e2, f.fi)
+            except _Return as r:
+                return r.value
+            return None
+        finally:
+            self.depth -= 1
 
     def _bind(self, fi: FuncInfo, args: list[Any], kwargs: dict[str, Any]) -> dict[str, Any]:
         a = fi.node.args
@@ -471,6 +579,9 @@ class Interp:
             finally:
                 pass
             self.exec_block(st.finalbody, env, fi)
+            return
+        if isinstance(st, ast.FunctionDef):
+            env[st.name] = LocalFunc(st, env, fi)
             return
         if isinstance(st, ast.Import):
             for a in st.names:
@@ -705,8 +816,13 @@ class Interp:
 
     def binop(self, op: ast.operator, a: Any, b: Any, n: ast.AST) -> Any:
         if isinstance(a, OrdInt) or isinstance(b, OrdInt):
-            raise AnalysisError("CARD", f"arithmetic on an ordinal value leaves the comparison "
-                                        f"fragment: {src(n)}")
+            # outside the comparison-only fragment: still decided on every point of the box, but the
+            # order-type completeness argument does not cover it (recorded, reported in evidence)
+            for x in (a, b):
+                if isinstance(x, OrdInt):
+                    ARITH_ON_ORDINALS.add(x.tag)
+            a = a.v if isinstance(a, OrdInt) else a
+            b = b.v if isinstance(b, OrdInt) else b
         try:
             if isinstance(op, ast.Add):
                 return a + b
@@ -810,6 +926,10 @@ class Interp:
                 return v
         if name in ("True", "False", "None"):
             return {"True": True, "False": False, "None": None}[name]
+        if name == "__name__" and fi is not None:
+            return fi.unit.mod
+        if name == "__file__" and fi is not None:
+            return fi.unit.path
         if name in _BUILTINS or name in _BUILTIN_TYPES:
             return ("builtin", name)
         if fi is not None and name in self._locals(fi):
@@ -988,6 +1108,8 @@ class Interp:
             for p, v in zip([x.arg for x in f.node.args.args], args):
                 e2[p] = v
             return self.eval(f.node.body, e2, f.fi)
+        if isinstance(f, LocalFunc):
+            return self.call_local(f, args, kwargs)
         if isinstance(f, ClassRef):
             hook = self.native.get(f"new:{f.ci.name}")
             if hook is not None:
@@ -1046,7 +1168,7 @@ class Interp:
                     raise AbsRaise(f"{type(exc).__name__} at {src(n)}", where) from exc
             raise AnalysisError("ABSINT", f"method {attr} of {type(obj).__name__} outside fragment",
                                 where)
-        if callable(f) and not isinstance(f, (AObj, ClassRef, FuncRef, BoundMethod, Lambda, ModuleRef,
+        if callable(f) and not isinstance(f, (AObj, ClassRef, FuncRef, BoundMethod, Lambda, LocalFunc, ModuleRef,
                                               EnumVal, SuperProxy)):
             nargs = [AObjProxy(self, a) if isinstance(a, AObj) else a for a in args]
             try:
@@ -1102,7 +1224,8 @@ class Interp:
             tot: Any = args[1] if len(args) > 1 else 0
             for x in self.iterate(args[0]):
                 if isinstance(x, OrdInt):
-                    raise AnalysisError("CARD", "sum over ordinal values", where)
+                    ARITH_ON_ORDINALS.add(x.tag)
+                    x = x.v
                 tot = tot + (int(x) if isinstance(x, bool) else x)
             return tot
         if name == "next":
@@ -1144,7 +1267,30 @@ class Interp:
         if name == "zip":
             return list(zip(*[list(self.iterate(a)) for a in args]))
         if name == "range":
-            return range(*args)
+            return range(*[a.__index__() if isinstance(a, OrdInt) else a for a in args])
+        if name == "map":
+            return [self._apply(args[0], x) for x in self.iterate(args[1])]
+        if name == "filter":
+            return [x for x in self.iterate(args[1])
+                    if (self.truth(x) if args[0] is None else self.truth(self._apply(args[0], x)))]
+        if name == "divmod":
+            return divmod(*args)
+        if name == "pow":
+            return pow(*args)
+        if name == "repr":
+            return repr(args[0]) if not isinstance(args[0], (AObj, EnumVal)) else self.to_str(args[0])
+        if name == "type":
+            v = args[0]
+            if isinstance(v, AObj) and self.pm.has_cls(v._cls):
+                return ClassRef(self.pm.cls(v._cls))
+            return ("builtin", type(v).__name__)
+        if name == "iter":
+            return iter(list(self.iterate(args[0])))
+        if name == "vars":
+            v = args[0]
+            if isinstance(v, AObj):
+                return {k: x for k, x in v._f.items() if k not in ("_frozen", "_complete")}
+            raise AnalysisError("ABSINT", "vars() outside fragment", where)
         if name == "hasattr":
             v, a = args
             if isinstance(v, AObj):
@@ -1184,7 +1330,7 @@ class Interp:
                 return sorted(names)
             raise AnalysisError("ABSINT", "dir() outside fragment", where)
         if name == "callable":
-            return isinstance(args[0], (BoundMethod, FuncRef, Lambda, ClassRef))
+            return isinstance(args[0], (BoundMethod, FuncRef, Lambda, LocalFunc, ClassRef))
         if name == "float":
             return float(args[0])
         if name == "abs":
@@ -1300,10 +1446,20 @@ class Interp:
         raise AnalysisError("ABSINT", "binary callable outside fragment")
 
     def _apply(self, f: Any, x: Any) -> Any:
+        if isinstance(f, BoundMethod):
+            return self.call(f.fi, [f.obj, x])
+        if isinstance(f, tuple) and f and f[0] == "builtin":
+            return self.builtin(f[1], [x], {}, ast.Constant(value=None), "")
+        if isinstance(f, ClassRef):
+            return self.eval_call_class(f.ci, [x])
+        if callable(f) and not isinstance(f, (Lambda, FuncRef)):
+            return f(x)
         if isinstance(f, Lambda):
             e2 = dict(f.env)
             e2[f.node.args.args[0].arg] = x
             return self.eval(f.node.body, e2, f.fi)
+        if isinstance(f, LocalFunc):
+            return self.call_local(f, [x], {})
         if isinstance(f, FuncRef):
             return self.call(f.fi, [x])
         raise AnalysisError("ABSINT", "key function outside fragment")
@@ -1315,7 +1471,7 @@ _STR_METHODS = {"startswith", "endswith", "lower", "upper", "replace", "strip", 
                 "partition", "rpartition", "splitlines", "zfill", "isidentifier", "isupper",
                 "islower", "isnumeric", "removeprefix", "removesuffix"}
 _MISSING = object()
-_BUILTINS = {"open", "setattr", "getattr", "dir", "round", "print", "reversed", "hash", "id", "len", "any", "all", "sum", "next", "isinstance", "list", "tuple", "set", "sorted",
+_BUILTINS = {"map", "filter", "divmod", "pow", "repr", "type", "iter", "vars", "open", "setattr", "getattr", "dir", "round", "print", "reversed", "hash", "id", "len", "any", "all", "sum", "next", "isinstance", "list", "tuple", "set", "sorted",
              "str", "bool", "int", "min", "max", "enumerate", "zip", "range", "hasattr",
              "callable", "float", "abs", "dict", "frozenset", "cast"}
 
